@@ -775,7 +775,21 @@ func checkAndPropagateArgsForUnionWithReturnT(
 ) (returnT *base.T, err error) {
 
 	for idx, class := range classNames {
-		err = checkAndPropagateArgs(m, class, methodTs[idx], evalutedArgs)
+		memberT := methodTs[idx]
+
+		err = checkAndPropagateArgs(m, class, memberT, evalutedArgs)
+		if err != nil {
+			// the other declarations of this member, as for a plain receiver
+			for _, overloadT := range memberT.Overloads {
+				if checkAndPropagateArgs(m, class, &overloadT, evalutedArgs) == nil {
+					memberT = &overloadT
+					err = nil
+
+					break
+				}
+			}
+		}
+
 		if err != nil {
 			return nil, err
 		}
@@ -783,7 +797,7 @@ func checkAndPropagateArgsForUnionWithReturnT(
 		// what this member of the receiver union returns: the declared type with
 		// Self, Unify, ... resolved against that member (on a copy: methodTs are
 		// the entries of the method table itself)
-		memberReturnT := memberExecutionType(m, class, methodTs[idx], evalutedArgs)
+		memberReturnT := memberExecutionType(m, class, memberT, evalutedArgs)
 
 		if returnT == nil {
 			returnT = memberReturnT
